@@ -592,11 +592,11 @@ var (
 	extSets  = [][]string{{"css", "js"}, {"css"}, {"js", "ejs"}, {"html", "htm"}, {"txt"}, {"css", "js", "html"}, {"JS"}, {"bak"}, {"s"}}
 	prefixes = []string{"/static", "/static", "/assets", "/a/b", "", "/v1.0", "/fs/x/y", "/s-t_u~v", "/css", "/www",
 		"/", "/static/", "static", "//a", "/a/../b", "/a//b", "/.", "/a/"}
-	// pieces a request path is assembled from
 	// global path vars an application may have defined before it registers the static handlers: the name the
 	// static handlers use themselves, rux's predefined names, names of the application's own
 	gvarNames = []string{"file", "file", "file", "file", "all", "any", "num", "name", "ext", "zz9"}
 	gvarRegex = []string{`[\w.-]+`, `.+`, `.*`, `[^/]+`, `\d+`, `[a-z]+\.txt`, `.+\.(?:bak|txt|html)`, `[1-9][0-9]*`, `\w+`, `[^.]+`, `.+\.css`, `(`}
+	// pieces a request path is assembled from
 	attackSegs = []string{"..", "..", "..", ".", "", "", "...", "....", "www", "www-private", "secret.css", "index.html", "%2e%2e", "%2E%2E", "%2e.", ".%2e",
 		"%252e%252e", "..%2f", "..%2F..", "%2e%2e%2f", "..%5c", "..\\", "\\", "%5c", "%00", "a.css%00", "%00.css", "a.css.", "a.css%20", "%20", "a.css%09",
 		"%c2%85", "%e2%80%a8", "%ff", "%c0%af", "%c0%ae%c0%ae", "%0a", "a%0a.css", "%2f", "%2F", ".css", "..css", "x.css", "X.CSS", "a.CSS", "nodejs", "x.ejs", "~",
